@@ -8,12 +8,14 @@ inlined helper / rewritten `try_for_each` are all the same thing.
 """
 from .common import *
 # helpers shared by the two modules of this owner (candidates for templates.py / common.py, see C13-NOTES.txt)
-from .C11 import reach_v, must_pass_v, EnumProbes, single_def, const_operand, plain_source
+from .C11 import reach_v, must_pass_v, EnumProbes, single_def, const_operand, plain_source, undecided_weak
 
 VIEW = 'norm'
 # the conversions build `f + b*s` / `f + s` with the Add kernels of the polynomial algebra; a kernel that loses
 # a term changes the feasible set of the new equality (seed C13-9), so those kernels are re-decided here
-RELIES_ON = {'C02': ['C02.kernel']}
+RELIES_ON = {'C02': ['C02.kernel'],
+             # the interval of f is built from get_bounds(): an unset bound of a Binary variable is [0, 1] (decided by C05's table rules)
+             'C05': ['C05.bound/get_bounds', 'C05.bound/sibling']}
 INST = 'v1::Instance'; DV = 'v1::DecisionVariable'; CON = 'v1::Constraint'
 ALLOWED_KINDS = {'Binary', 'Integer'}
 
@@ -75,6 +77,10 @@ def slack_rules(ctx, name, convert):
     push_bbs = {c.bb for c in pushes}
 
     def before_push(bb): return all(body.dominates(bb, pb) for pb in push_bbs)
+    # the instance is also modified on the always-satisfied path (relax_constraint moves the constraint): the rejection guards
+    # (lookup, inequality, function present, every variable known and integral) must precede EVERY modification
+    mut_bbs = push_bbs | {c.bb for c in body.calls if c.item == 'relax_constraint' and c.path.endswith('relax_constraint')}
+    def before_mutation(bb): return all(body.dominates(bb, mb) for mb in mut_bbs)
     oks = body.strict_ok_exits()
     # ---- g1: constraint lookup by id; not found => error
     lk = lookup_loops(ctx, body)
@@ -88,13 +94,13 @@ def slack_rules(ctx, name, convert):
         r_none = reach_v(body, [none_bb])
         ctx.check(not (r_none & oks) and bool(r_none & body.err_exits()), R + '/guards/lookup/none-is-error', 'T-ERRFLOW', body.name, 'an unknown constraint id can reach an Ok-exit', body.site(nextc.bb))
         r_miss = reach_v(body, [miss], stop={header})
-        ctx.check(not (r_miss & oks) and not (push_bbs & r_miss), R + '/guards/lookup/miss-continues', 'T-LOOPMUST', body.name, 'a constraint with another id is accepted', body.site(tbb))
-        ctx.check(before_push(header), R + '/guards/lookup/dominates', 'T-GUARD', body.name, 'lookup does not dominate the mutation', body.site(nextc.bb))
+        ctx.check(not (r_miss & oks) and not (mut_bbs & r_miss), R + '/guards/lookup/miss-continues', 'T-LOOPMUST', body.name, 'a constraint with another id is accepted', body.site(tbb))
+        ctx.check(before_mutation(header), R + '/guards/lookup/dominates', 'T-GUARD', body.name, 'lookup does not dominate the mutation', body.site(nextc.bb))
         feats['lookup'] = True
     else:
         for c in calls_lk[:1]:
             errflow_calls(ctx, R + '/guards/lookup/none-is-error', body, [c], 'constraint lookup')
-            ctx.check(before_push(c.bb), R + '/guards/lookup/dominates', 'T-GUARD', body.name, 'lookup does not dominate the mutation', body.site(c.bb))
+            ctx.check(before_mutation(c.bb), R + '/guards/lookup/dominates', 'T-GUARD', body.name, 'lookup does not dominate the mutation', body.site(c.bb))
             feats['lookup'] = True
     # ---- g2: must be an inequality  (ENUM-TEST idioms of C11.EnumProbes: == / != / matches! / match / if let / raw i32 compare,
     #          whatever consumes the outcome).  Stated per kind: assume constraint.equality() is V wherever the body inspects it
@@ -110,7 +116,7 @@ def slack_rules(ctx, name, convert):
                 if not (r & oks): leak.append('an inequality never succeeds')
             else:
                 if (r & oks) or not (r & body.err_exits()): leak.append('%s can reach an Ok-exit' % V)
-                if r & push_bbs: mut.append(V)
+                if r & mut_bbs: mut.append(V)
         ctx.check(not leak, R + '/guards/is-inequality', 'T-GUARD', body.name, 'test `constraint.equality() == LessThanOrEqualToZero` does not guard the Ok-exits: %s' % '; '.join(leak), P.site())
         ctx.check(not mut, R + '/guards/is-inequality/dominates', 'T-GUARD', body.name, 'the mutation is reachable for %s' % mut, P.site())
         if not leak and not mut: feats['is-inequality'] = True
@@ -125,23 +131,23 @@ def slack_rules(ctx, name, convert):
         ctx.counters['cfg_paths'] += 1
         r = reach_v(body, [none_t])
         fcands.append((sb, 'match', not (r & oks) and bool(r & body.err_exits())))
-    fc = [x for x in fcands if before_push(x[0])]
+    fc = [x for x in fcands if before_mutation(x[0])]
     ctx.check(bool(fc), R + '/guards/function/access', 'T-ERRFLOW', body.name, 'no test of constraint.function before the mutation', body.site())
     if fc:
         good = [x for x in fc if x[2]]
         ctx.check(bool(good), R + '/guards/function/none-is-error', 'T-ERRFLOW', body.name, 'a constraint without function can reach an Ok-exit', body.site(fc[0][0]))
-        ctx.check(bool(good) and before_push(good[0][0]), R + '/guards/function/dominates', 'T-GUARD', body.name, 'function test does not dominate the mutation', body.site(fc[0][0]))
+        ctx.check(bool(good) and before_mutation(good[0][0]), R + '/guards/function/dominates', 'T-GUARD', body.name, 'function test does not dominate the mutation', body.site(fc[0][0]))
         if good: feats['function'] = True
     # ---- g4: every used variable is known and binary / integer
     #      (a loop over the used ids of the constraint function that dominates the mutation; the one that looks the kinds up)
     # the kind of the item: kinds.get(&id) on the table of get_kinds(), looked up by the loop item (HashMap / BTreeMap)
     def kind_gets(lo): return [c for c in body.calls if c.bb in lo[4] and c.item == 'get' and re.search(r'(Hash|BTree)Map', c.name) and 'Kind' in c.name and lo[0] in ctx.S.slice_operand(body, c.args[1]).call_objs]
-    loops = [lo for lo in T.for_loops(body) if ctx.S.slice_operand(body, lo[0].args[0]).has_call(r'impl v1::Function>::used_decision_variable_ids') and before_push(lo[1])]
+    loops = [lo for lo in T.for_loops(body) if ctx.S.slice_operand(body, lo[0].args[0]).has_call(r'impl v1::Function>::used_decision_variable_ids') and before_mutation(lo[1])]
     ctx.check(bool(loops), R + '/guards/kinds/loop', 'T-LOOPMUST', body.name, 'no loop over the used variable ids before the mutation', body.site())
     loops = sorted(loops, key=lambda lo: not kind_gets(lo))[:1]
     for lo in loops:
         nextc, header, some_bb, none_bb, blocks = lo
-        ctx.check(before_push(header), R + '/guards/kinds/dominates', 'T-GUARD', body.name, 'kind loop does not dominate the mutation', body.site(nextc.bb))
+        ctx.check(before_mutation(header), R + '/guards/kinds/dominates', 'T-GUARD', body.name, 'kind loop does not dominate the mutation', body.site(nextc.bb))
         gets = kind_gets(lo)
         ctx.check(len(gets) >= 1, R + '/guards/kinds/get', 'T-ERRFLOW', body.name, 'no kinds.get(id) of the loop item in the loop', body.site(nextc.bb))
         if not gets: continue
@@ -326,7 +332,7 @@ def slack_rules(ctx, name, convert):
             weak = bool(idl & ts.locals) and (ts.has_call(r'impl v1::Function>::content_factor') if convert else (ts.has_call(r'bound::Bound::lower') and 3 in ts.params))
             ctx.check(weak, R + '/coef/slack-term-sources', 'T-CARRY', body.name, 'the slack term is not made of the new id and the coefficient sources', body.site(c.bb))
             for leaf in ('slack-id', 'one-over-a' if convert else 'minus-lower-over-upper') + (() if convert else ('returned',)):
-                ctx.undecided(R + '/coef/' + leaf, 'T-CARRY', body.site(c.bb), 'slack term built with Linear::new: operands not separated; sources are decided by /coef/slack-term-sources')
+                undecided_weak(ctx, R + '/coef/' + leaf, 'T-CARRY', body.site(c.bb), 'slack term built with Linear::new: operands not separated; sources are decided by /coef/slack-term-sources', weak, body.name)
         for c in st_calls:
             same_id = bool(idop) and bool((plain_source(body, idop) or set()) & (plain_source(body, c.args[0]) or set()))
             ctx.check(same_id, R + '/coef/slack-id', 'T-CARRY', body.name, 'the slack term does not use the new variable id', body.site(c.bb))
@@ -424,7 +430,7 @@ def hull_rule(ctx, R, body):
     rule = R + '/bound/hull-of-scaled'
     if not verdicts: ctx.bad(rule, 'T-CARRY', body.name, 'no bound.lower() / bound.upper() of an evaluated interval', body.site())
     elif bad: ctx.bad(rule, 'T-CARRY', body.name, bad[0][2], body.site(bad[0][1].bb))
-    elif und: ctx.undecided(rule, 'T-CARRY', body.site(und[0][1].bb), und[0][2])
+    elif und: undecided_weak(ctx, rule, 'T-CARRY', body.site(und[0][1].bb), und[0][2], True, body.name)       # the violation clauses above were decided
     else: ctx.ok(rule, 'T-CARRY', body.site(verdicts[0][1].bb), ends=len(verdicts))
 
 
@@ -466,7 +472,7 @@ def limit_target_rule(ctx, R, body, slack_news):
     bad = [v for v in verdicts if v[0] == 'bad']; und = [v for v in verdicts if v[0] == 'undecided']
     if not verdicts: ctx.bad(rule, 'T-CARRY', body.name, 'no comparison of a slack range with max_integer_range', body.site())
     elif bad: ctx.bad(rule, 'T-CARRY', body.name, bad[0][2], body.site(bad[0][1]))
-    elif und: ctx.undecided(rule, 'T-CARRY', body.site(und[0][1]), und[0][2])
+    elif und: undecided_weak(ctx, rule, 'T-CARRY', body.site(und[0][1]), und[0][2], True, body.name)
     else: ctx.ok(rule, 'T-CARRY', body.site(verdicts[0][1]))
 
 
@@ -492,7 +498,7 @@ def unrounded_rule(ctx, R, body):
     bad = [v for v in verdicts if v[0] == 'bad']; und = [v for v in verdicts if v[0] == 'undecided']
     if not verdicts: ctx.bad(rule, 'T-CARRY', body.name, 'no bound.lower() / bound.upper() of an evaluated interval', body.site())
     elif bad: ctx.bad(rule, 'T-CARRY', body.name, bad[0][2], body.site(bad[0][1].bb))
-    elif und: ctx.undecided(rule, 'T-CARRY', body.site(und[0][1].bb), und[0][2])
+    elif und: undecided_weak(ctx, rule, 'T-CARRY', body.site(und[0][1].bb), und[0][2], True, body.name)       # the violation clauses above were decided
     else: ctx.ok(rule, 'T-CARRY', body.site(verdicts[0][1].bb), ends=len(verdicts))
 
 
